@@ -354,6 +354,29 @@ def stage_removetxn(ctx, cov):
     return {"traces": [(o, "Trace_RemoveTxn") for o in outs]}
 
 
+def stage_fliptxn(ctx, cov):
+    """MC of the flip-application transaction model (atomic: AllOrNothing holds; as coded: the known non-atomic
+    application is the design counterexample; before fix F-M: a refused k=1 handle left the vertex behind), then every
+    as-coded behaviour replayed through failpoint scripts on the Edit API"""
+    for run in (stage_mc("FlipTxn.tla", "MC_FlipTxn_atomic.cfg", workers=1),
+                stage_mc("FlipTxn.tla", "MC_FlipTxn_ascoded.cfg", workers=1, expect_violation=["AllOrNothing"]),
+                stage_mc("FlipTxn.tla", "MC_FlipTxn_prefix.cfg", workers=1, expect_violation=["RefusedIsNoOp"])):
+        r = run(ctx, cov)
+        if r.get("tool_error") or r.get("violations"):
+            return r
+    rc, txt = ctx.run_tlc("FlipTxn.tla", "Gen_FlipTxn.cfg", os.path.join(ctx.wdir, "genftxn_meta"), workers=1, timeout=900, xmx="2g")
+    if rc is None or "Model checking completed" not in txt:
+        return {"tool_error": "Gen_FlipTxn failed:\n" + (txt or "")[-2000:]}
+    scripts = sorted({mm.group(1).encode().decode("unicode_escape") for mm in (RE_REPLAY.match(l.strip()) for l in txt.split("\n")) if mm})
+    cov["generated_scripts"] = cov.get("generated_scripts", 0) + len(scripts)
+    sf = os.path.join(ctx.wdir, "ftxn_scripts.ndjson")
+    open(sf, "w").write("\n".join(scripts) + "\n")
+    outs, err = drive_family(ctx, "fliptxn", 2, ["--hist", sf])
+    if err:
+        return {"tool_error": err}
+    return {"traces": [(o, "Trace_FlipTxn") for o in outs]}
+
+
 def stage_family(ctx, fam, nparts, module, extra=None):
     outs, err = drive_family(ctx, fam, nparts, extra)
     if err:
@@ -380,7 +403,7 @@ _EMITS = {
 }
 SECONDARY = {"C01": _EMITS["Construct"], "C02": _EMITS["Insert"], "C04": _EMITS["Verdicts"], "C06": _EMITS["Remove"],
              "C07": _EMITS["Flip"], "C08": _EMITS["Repair"], "C09": _EMITS["InsertCopy"]}
-STAGE_FAMILIES = {"C02": ["inserttxn"], "C03": ["inserttxn", "removetxn"], "C06": ["removetxn"], "C09": ["caches"], "C11": ["caches"],
+STAGE_FAMILIES = {"C02": ["inserttxn"], "C03": ["inserttxn", "removetxn", "fliptxn"], "C06": ["removetxn"], "C07": ["fliptxn"], "C09": ["caches"], "C11": ["caches", "fliptxn"],
                   "C18": ["measures"], "C08": ["repairtrace"]}
 SECONDARY_SHARE = 0.3
 THOROUGH_ROUNDS = 3   # the thorough tier drives every family with this many seeds (seed, seed + 101, ...)
@@ -555,7 +578,10 @@ PLANS = {
                      "re-insertion of removed positions; distinct non-trivial = distinct successful Remove events",
                 nontrivial=_key_event({"Remove"})),
     "C07": dict(level="model_checking", families=[("flips", 14, 16)],
-                rule="shuffled enumeration of every facet/ridge/edge/triangle/cell/vertex handle position "
+                stages=[stage_fliptxn],
+                rule="(o) the flip-application transaction model FlipTxn.tla (vertex / context / insert / wire / remove / normalise / compensation steps of one explicit flip; "
+                     "Committed, NoOverlapNoHole, RefusedIsNoOp, StaleWhenChanged checked, AllOrNothing with an atomic application) and every behaviour replayed through failpoint scripts on "
+                     "flip_k1_insert / flip_k2 / flip_k1_remove (Trace_FlipTxn); shuffled enumeration of every facet/ridge/edge/triangle/cell/vertex handle position "
                      "(incl. out-of-range, i=j, stale, foreign) each followed by its inverse; distinct non-trivial = "
                      "distinct successful Flip events",
                 nontrivial=_key_event({"Flip"})),
@@ -595,7 +621,7 @@ PLANS = {
                 stages=[lambda c, v: stage_mc("MC_Caches.tla", ("MC_Caches_fixed.cfg" if c.tier == "thorough" else "MC_Caches_fixed_quick.cfg") if edit_invalidates() else "MC_Caches_pinned.cfg",
                                               expect_violation=None if edit_invalidates() else ["IndexComplete", "NoDuplicateAccepted"])(c, v),
                         stage_sim("MC_Caches.tla", "MC_Caches_sim.cfg", 20000, 60),
-                        stage_caches],
+                        stage_caches, stage_fliptxn],
                 rule="(i) exhaustive TLC check of the cache mechanism model (2 positions, 2 objects, depth 6), thorough tier: 80 000 random behaviours of depth 60 in TLC simulation mode; (ii) every "
                      "history TLC generates from that model up to the depth bound (plus a seeded sample one step beyond) "
                      "replayed on the real library with the spatial index observed through hooks after every call and "
@@ -683,8 +709,9 @@ PLANS = {
                             "spec-generated exact vectors replayed into the implementation.",
                 nontrivial=lambda e: ((e["ev"], json.dumps(e.get("args"), sort_keys=True)) if e["ev"] == "Measure" else None)),
     "C03": dict(level="fault_enumeration", families=[("failpoints", 14, 16), ("remove", 6, 16), ("insert", 6, 16), ("flips", 6, 16), ("repair", 6, 16)],
-                stages=[stage_inserttxn, stage_apalache_inserttxn, stage_removetxn],
-                rule="(o') the removal transaction model RemoveTxn.tla (fast inverse-k=1 path, fan path with clone / restore, "
+                stages=[stage_inserttxn, stage_apalache_inserttxn, stage_removetxn, stage_fliptxn],
+                rule="(o'') the flip-application transaction model FlipTxn.tla replayed through failpoint scripts on the Edit API (Trace_FlipTxn: a refused handle changes nothing - found and fixed F-M - and the late "
+                     "errors of the non-atomic application are KF-C03-1c); (o') the removal transaction model RemoveTxn.tla (fast inverse-k=1 path, fan path with clone / restore, "
                      "post-removal repair with outer snapshot), AllOrNothing with atomic flips and its failure as coded (KF-C03-1), "
                      "all behaviours replayed through failpoint scripts (Trace_RemoveTxn); (o) the insertion transaction model InsertTxn.tla (AllOrNothing over all policies / counts / choices) and the "
                      "replay of all its behaviours through failpoint scripts; (i) FAILPOINTS: for insert / insert_with_statistics (interior, exterior), remove_vertex, Edit-API flips (k=1,2,3) "
